@@ -309,12 +309,18 @@ def _components(*, data):
 
 def _fit_small(*, data):
     import scipp as sc
-    from scippneutron.peaks import fit_peaks
+    from scippneutron.peaks import FitParameters, FitRequirements, fit_peaks
 
     x = data.coords[data.dim]
     mid = (x.min() + x.max()) / 2
+    # settings variant chosen by the recipe (carried in the data array's name)
+    v = int(data.name[1:]) if data.name.startswith("v") else 0
+    kw = [{}, {"fit_requirements": FitRequirements(max_peak_width_factor=0.01)},
+          {"fit_requirements": FitRequirements(min_p_value=0.0, max_peak_width_factor=100.0, min_peak_width_factor=0.0)},
+          {"fit_parameters": FitParameters(guess_background_fraction=0.2)},
+          {"fit_requirements": FitRequirements(min_p_value=0.999999)}][v % 5]
     res = fit_peaks(data, peak_estimates=sc.concat([mid], data.dim), windows=(x.max() - x.min()) * 0.8,
-                    background="linear", peak="gaussian")
+                    background="linear", peak="gaussian", **kw)
     return [[r.assessment, r.message, r.window, dict(r.popt), r.red_chisq, r.p_value, r.aic] for r in res]
 
 
@@ -381,10 +387,12 @@ def build_data(kind, form):
         v = np.array([14.0] * 5 + [14.0 + 0.5 * k for k in range(1, 4)] + [28.0] * 5 + [3.0] * 3)
         return sc.DataArray(sc.array(dims=["time"], values=v, unit="Hz"), coords={"time": t}), None
     if kind in ("spectrum", "spectrum_var"):
-        x = sc.array(dims=["x"], values=np.linspace(1.0, 5.0, n + 12), unit="angstrom")
-        y = sc.array(dims=["x"], values=g.uniform(1, 10, n + 12), unit="counts",
+        xs = np.linspace(1.0, 5.0, n + 12)
+        x = sc.array(dims=["x"], values=xs, unit="angstrom")
+        bump = 8.0 * np.exp(-((xs - 3.0) ** 2) / 0.5)
+        y = sc.array(dims=["x"], values=g.uniform(1, 2, n + 12) + bump, unit="counts",
                      variances=g.uniform(0.1, 1, n + 12) if kind == "spectrum_var" else None)
-        return sc.DataArray(y, coords={"x": x}), None
+        return sc.DataArray(y, coords={"x": x}, name=f"v{form.get('choice', 0)}"), None
     # tofdata: dense or binned data array with a tof coord in the conversion's own unit
     unit = "us" if form["unit"] == "target" else "ms"
     f = 1.0 if unit == "us" else 1e-3
@@ -853,7 +861,50 @@ def _grid_cases():
     return _GRID
 
 
+_REENTRY = []
+REENTRY_RUNS = 16
+
+
+def _reentrancy_cases():
+    """Re-entrancy sweep: for every catalogued call, a second caller calls the SAME function
+    (other argument values / settings variant) at several points in the middle of the first
+    caller's call; the first call's result must equal the call alone."""
+    if _REENTRY:
+        return _REENTRY
+    import random
+
+    for key in sorted(CALLS):
+        for rep in range(3):
+            r = random.Random(f"reentry/{key}/{rep}")
+            host = _gen_call(r, [])
+            while host["f"] != key:
+                host = _gen_call(r, [])
+            for a in host["args"].values():
+                if "form" in a:
+                    a["form"]["choice"] = rep
+            pts = []
+            for at in (2, 9, 30, 90, 250, 700, 2000):
+                nested = copy.deepcopy(host)
+                for a in nested["args"].values():
+                    if "form" in a:
+                        a["form"]["seed"] = r.randrange(1 << 30)
+                        a["form"]["choice"] = rep + 1 + len(pts)
+                nested["nested_fresh"] = True
+                nested["c"] = 1
+                pts.append({"at": at, "op": nested})
+            host["c"] = 0
+            host["preempt"] = pts
+            _REENTRY.append(host)
+    return _REENTRY
+
+
 def generate(rng, tier, i):
+    if GRID_RUNS <= i < GRID_RUNS + REENTRY_RUNS:
+        cases = _reentrancy_cases()
+        j = i - GRID_RUNS
+        per = (len(cases) + REENTRY_RUNS - 1) // REENTRY_RUNS
+        return {"callers": 2, "reentry": [j * per, min(len(cases), (j + 1) * per), len(cases)],
+                "ops": copy.deepcopy(cases[j * per:(j + 1) * per])}
     if i < GRID_RUNS:
         cases = _grid_cases()
         per = (len(cases) + GRID_RUNS - 1) // GRID_RUNS
@@ -918,7 +969,8 @@ def generate(rng, tier, i):
                         nested = _gen_call(rng, [])
                         while nested["f"] in EXPENSIVE:
                             nested = _gen_call(rng, [])
-                        if op["k"] == "call" and rng.random() < 0.6 and op["f"] not in EXPENSIVE:
+                        if op["k"] == "call" and rng.random() < 0.6 and (
+                                op["f"] not in EXPENSIVE or op["f"] == "peaks.fit_peaks"):
                             nested = copy.deepcopy({k: v for k, v in op.items() if k != "preempt"})
                             for a in nested["args"].values():
                                 if "ref" in a:
@@ -926,6 +978,7 @@ def generate(rng, tier, i):
                                     a.update({"skip": True})
                                 elif "form" in a:
                                     a["form"]["seed"] = rng.randrange(1 << 30)
+                                    a["form"]["choice"] = rng.randrange(8)
                             if any("skip" in a for a in nested["args"].values()):
                                 nested = _gen_call(rng, [])
                                 while nested["f"] in EXPENSIVE:
@@ -1287,6 +1340,7 @@ class C09Engine(Engine):
                     if o["k"] == "derive" and o["h"] in hs and o["src"] not in hs:
                         hs.add(o["src"])
                         changed = True
+            hs.discard(None)
             return nop.get("h") in hs or nop.get("src") in hs
 
         def run(op, nested=False):
@@ -1358,6 +1412,8 @@ class C09Engine(Engine):
         finally:
             server.close()
         ctx.count("pool_objects", len(world.pool))
+        if "reentry" in scn:
+            ctx.count("reentrancy_sweep_cases", len(ops))
         if "grid" in scn:
             ctx.count("aliasing_grid_cases", len(ops))
             ctx.probe("aliasing_grid_total_cases", 0)
